@@ -844,10 +844,11 @@ def build_reader_files(md, tmp, specs):
     return paths, want
 
 
-def run_schedule(md, paths, sched):
+def run_schedule(md, paths, sched, limit=None):
     """sched: ['o', reader, file] opens a reader iterator, ['n', reader, count] advances it by up to `count` entries, ['d', reader]
     drains it; whatever is still open at the end is drained in reader order.  Returns {reader: [file, entries, error | None]}
-    and the largest number of iterators that were alive (opened, not exhausted) at the same time"""
+    and the largest number of iterators that were alive (opened, not exhausted) at the same time.  `limit[file]`: a reader
+    that yields more entries than that is stopped (a reader walking over foreign bytes need not terminate)"""
     its, got, alive = {}, {}, 0
 
     def advance(r, n):
@@ -856,10 +857,13 @@ def run_schedule(md, paths, sched):
             try:
                 k, v, t, _ = next(it)
                 got[r][1].append((k, fb(v), fb(t)))
+                if limit is not None and len(got[r][1]) > limit[got[r][0]]:
+                    got[r][2] = 'no error, but it yields more entries (%d so far) than the file holds' % len(got[r][1])
+                    its[r] = it = None
             except StopIteration:
                 its[r] = it = None
             except Exception as e:  # noqa: the class is the observation
-                got[r][2] = '%s: %s' % (errname(e), str(e)[:120])
+                got[r][2] = 'raised %s: %s' % (errname(e), str(e)[:120])
                 its[r] = it = None
             if n is not None:
                 n -= 1
@@ -892,12 +896,12 @@ def short_sched(sched, names):
 
 def schedule_oracle(md, paths, want, names, sched):
     """None, or (signature, description): every reader iterator yields what ITS file held when it was opened"""
-    got, alive = run_schedule(md, paths, sched)
+    got, alive = run_schedule(md, paths, sched, [len(w) + 4 for w in want])
     head = 'reader iterators alive at once [%s; the rest drained in order]: ' % short_sched(sched, names)
     for r in sorted(got):
         f, items, err = got[r]
         if err is not None:
-            return 'C10:concurrent-reader-raises', head + 'reader #%d of file %s raised %s after %d of %d entries' % (
+            return 'C10:concurrent-reader-raises', head + 'reader #%d of file %s: %s after %d of %d entries' % (
                 r, names[f], err, len(items), len(want[f]))
         if tuple(items) != want[f]:
             return 'C10:concurrent-readers-mismatch', head + 'reader #%d of file %s yields %s, the file holds %s' % (
